@@ -52,6 +52,17 @@ func (g *FuncGen) execCall(x *ssa.Call, st *State) error {
 			g.tuples[x] = res
 		}
 	}
+	if c == nil && callee != nil && g.canInline(callee) {
+		if rs, ok := g.inlineCall(callee, args, st); ok {
+			g.inlined[shortKey(callee.String())] = true
+			if nres == 1 {
+				g.define(x, rs[0])
+			} else if nres > 1 {
+				g.tuples[x] = rs
+			}
+			return nil
+		}
+	}
 	if c == nil {
 		name := "dynamic call"
 		if callee != nil {
@@ -201,7 +212,7 @@ func (g *FuncGen) execCall(x *ssa.Call, st *State) error {
 		g.assert(fmt.Sprintf("(=> %s %s)", nr, t))
 	}
 	// frame.call obligations for maps the callee modifies but we may not
-	if g.c != nil && !g.modifiesAll {
+	if g.rootC != nil && !g.modifiesAll {
 		for _, m := range mods {
 			if m == "*" {
 				g.oblige("frame.call", shortKey(c.Key), st.reach, "false", "callee may modify anything, caller's modifies set is restricted", pos)
@@ -268,6 +279,137 @@ func heapFree(n *Node) bool {
 	return true
 }
 
+// canInline: a contract-less helper of /repo whose body is loop-free and small
+// is executed in place (its body is its contract); listed in the evidence as inlined.
+func (g *FuncGen) canInline(callee *ssa.Function) bool {
+	if g.depth >= 3 || len(callee.Blocks) == 0 || callee.Recover != nil || len(callee.Blocks) > 40 {
+		return false
+	}
+	if callee.Pkg == nil || !strings.HasPrefix(callee.Pkg.Pkg.Path(), "github.com/invopop/gobl") {
+		return false
+	}
+	if len(callee.FreeVars) > 0 {
+		return false
+	}
+	n := 0
+	for _, b := range callee.Blocks {
+		for _, s := range b.Succs {
+			if s.Dominates(b) {
+				return false // loop
+			}
+		}
+		for _, ins := range b.Instrs {
+			n++
+			switch ins.(type) {
+			case *ssa.Defer, *ssa.Go, *ssa.Select, *ssa.Send, *ssa.MakeClosure, *ssa.Range, *ssa.Next:
+				return false
+			}
+		}
+	}
+	return n <= 300
+}
+
+func (g *FuncGen) inlineCall(callee *ssa.Function, args []string, st *State) (results []string, ok bool) {
+	g.inlineSeq++
+	child := &FuncGen{Core: g.Core, fn: callee, depth: g.depth + 1, prefix: fmt.Sprintf("i%d.", g.inlineSeq)}
+	if callee.Pkg != nil {
+		child.pkg = callee.Pkg.Pkg
+	}
+	child.initFrame()
+	child.loops = map[*ssa.BasicBlock]*loopInfo{}
+	child.edges = map[[2]int]edgeInfo{}
+	child.debugRef = map[string][]debugDef{}
+	if len(args) != len(callee.Params) {
+		return nil, false
+	}
+	for i, p := range callee.Params {
+		child.vals[p] = args[i]
+	}
+	nObl, nAss := len(g.obls), len(g.asserts)
+	failed := false
+	func() {
+		defer func() {
+			if r := recover(); r != nil {
+				if _, isU := r.(unsupportedErr); isU {
+					failed = true
+					return
+				}
+				panic(r)
+			}
+		}()
+		for _, b := range child.rpo() {
+			var bst *State
+			if b.Index == 0 {
+				bst = &State{reach: st.reach, heap: st.heap, locals: map[*ssa.Alloc]string{}}
+			} else {
+				bst = child.mergeInto(b)
+			}
+			if bst == nil {
+				continue
+			}
+			if err := child.execBlock(b, bst); err != nil {
+				failed = true
+				return
+			}
+		}
+	}()
+	if failed {
+		// discard what the partial execution produced
+		g.obls = g.obls[:nObl]
+		g.asserts = g.asserts[:nAss]
+		return nil, false
+	}
+	if len(child.returns) == 0 {
+		// the helper never returns normally (always panics): nothing flows out
+		nr := g.newReach(st.reach)
+		g.assert(fmt.Sprintf("(not %s)", nr))
+		st.reach = nr
+		nres := callee.Signature.Results().Len()
+		for i := 0; i < nres; i++ {
+			results = append(results, g.freshConst("inl.res", g.w.SortOf(callee.Signature.Results().At(i).Type())))
+		}
+		return results, true
+	}
+	nres := callee.Signature.Results().Len()
+	if len(child.returns) == 1 {
+		r := child.returns[0]
+		st.reach = r.reach
+		st.heap = r.heap
+		return r.results, true
+	}
+	var conds []string
+	var heaps []*Heap
+	for _, r := range child.returns {
+		conds = append(conds, r.reach)
+		heaps = append(heaps, r.heap)
+	}
+	nr := g.freshConst("reach:inl", "Bool")
+	g.assert(fmt.Sprintf("(= %s (or %s))", nr, strings.Join(conds, " ")))
+	h := g.newHeap(hMerge)
+	h.preds = heaps
+	h.conds = conds
+	st.reach = nr
+	st.heap = h
+	for i := 0; i < nres; i++ {
+		same := true
+		for _, r := range child.returns[1:] {
+			if r.results[i] != child.returns[0].results[i] {
+				same = false
+			}
+		}
+		if same {
+			results = append(results, child.returns[0].results[i])
+			continue
+		}
+		rc := g.freshConst("inl.res", g.w.SortOf(callee.Signature.Results().At(i).Type()))
+		for _, r := range child.returns {
+			g.assert(fmt.Sprintf("(=> %s (= %s %s))", r.reach, rc, r.results[i]))
+		}
+		results = append(results, rc)
+	}
+	return results, true
+}
+
 func shortKey(k string) string {
 	return strings.ReplaceAll(strings.ReplaceAll(k, "github.com/invopop/gobl/", ""), "github.com/invopop/", "")
 }
@@ -275,7 +417,7 @@ func shortKey(k string) string {
 // frameCallAll: an abstracted heap-writing call inside a function with a
 // restricted modifies set cannot be shown to respect the frame.
 func (g *FuncGen) frameCallAll(st *State, name string, pos token.Pos) {
-	if g.c == nil || g.modifiesAll {
+	if g.rootC == nil || g.modifiesAll {
 		return
 	}
 	g.oblige("frame.call", "abstract", st.reach, "false", "abstracted call "+name+" may write the heap", pos)
@@ -322,7 +464,7 @@ func (g *FuncGen) execBuiltin(x *ssa.Call, b *ssa.Builtin, st *State) error {
 		if stt, ok := com.Args[0].Type().Underlying().(*types.Slice); ok {
 			em := g.elemMap(stt.Elem())
 			dst := g.val(com.Args[0])
-			if g.c != nil && !g.modifiesAll && !g.ownMod[em.Name] && !g.fresh[fmt.Sprintf("(s_arr %s)", dst)] {
+			if g.rootC != nil && !g.modifiesAll && !g.ownMod[em.Name] && !g.fresh[fmt.Sprintf("(s_arr %s)", dst)] {
 				g.oblige("frame.store", "", st.reach, fmt.Sprintf("(or (= (s_len %s) 0) (>= (s_arr %s) %s))", dst, dst, g.alloc0), "copy into a slice outside the modifies set", pos)
 			}
 			cur := g.heapGet(st.heap, em.Name, em.Sort)
@@ -339,7 +481,7 @@ func (g *FuncGen) execBuiltin(x *ssa.Call, b *ssa.Builtin, st *State) error {
 		m := g.val(com.Args[0])
 		k := g.val(com.Args[1])
 		md, ml := g.mapDom(mt, nil), g.mapLen(mt)
-		if g.c != nil && !g.modifiesAll && !g.fresh[m] && !g.ownMod[md.Name] {
+		if g.rootC != nil && !g.modifiesAll && !g.fresh[m] && !g.ownMod[md.Name] {
 			g.oblige("frame.store", "", st.reach, fmt.Sprintf("(or (= %s 0) (>= %s %s))", m, m, g.alloc0), "delete outside modifies set", pos)
 		}
 		curD := g.heapGet(st.heap, md.Name, md.Sort)
@@ -406,7 +548,7 @@ func (g *FuncGen) execAppend(x *ssa.Call, st *State) error {
 		// appending nothing to a slice without room (cap == len) returns s itself
 		n, s, newArr, s, n, ncap))
 	// frame: in-place write to a pre-existing array
-	if g.c != nil && !g.modifiesAll && !g.ownMod[em.Name] && !g.fresh[fmt.Sprintf("(s_arr %s)", s)] {
+	if g.rootC != nil && !g.modifiesAll && !g.ownMod[em.Name] && !g.fresh[fmt.Sprintf("(s_arr %s)", s)] {
 		g.oblige("frame.store", "", st.reach, fmt.Sprintf("(=> (and %s (> %s 0)) (>= (s_arr %s) %s))", inPlace, n, s, g.alloc0), "append writes in place into spare capacity of a slice outside the modifies set ("+em.Name+")", pos)
 	}
 	nv := g.freshConst("H:"+em.Name, em.Sort)
